@@ -113,6 +113,29 @@ TABLE.update({
     ),
 })
 
+TABLE.update({
+    "C19": (
+        True,
+        MC,
+        "explicit-state BFS to fix-point over size / initialized_size / "
+        "contents histories on the real ByteInterval, (size, bytes) model",
+        "All histories (fix-point) of size assignments 0..4, initialized_size "
+        "assignments not above size, whole-content replacement, in-place "
+        "byte edits, appends and deletions and save+load, from four initial "
+        "intervals (empty, full, all-uninitialised, loaded). In every state: "
+        "initialized_size == stored bytes == model bytes, stored <= size, the "
+        "IR saves and loads back equal, and for two blocks every (offset, "
+        "size) in {0,1,3,6}^2, interval addresses None/0/5 and probe points "
+        "-1..10 the block's address, contents, contains_offset and "
+        "contains_address equal their definitions; all constructor argument "
+        "combinations (size x initialized_size x contents length) are checked "
+        "for ValueError exactly when initialized_size > size.",
+        "Trusted: the two-field model. Sizes above 5 bytes are outside the "
+        "bound.",
+        "3/C19",
+    ),
+})
+
 PENDING = [
     "C01", "C02", "C03", "C04", "C05", "C06", "C07", "C08", "C09", "C10",
     "C11", "C12", "C13", "C14", "C16", "C17", "C18", "C19",
